@@ -256,6 +256,8 @@ def rgen_generated_clients(ctx):
     corpus of C17: positional and by-name, Option arguments included)"""
     from . import c17
     n = c17.client_encodes_every_argument(ctx, "C20.GEN")
+    nk = c17.client_kind_matches_declaration(ctx, "C20.GEN")
+    ctx.R.floor("C20.GEN.kind", nk, 30, "corpus declarations with parameters whose encoding kind was compared with the declaration")
     ctx.R.floor("C20.GEN", n, 50, "generated client stubs")
 
 
